@@ -84,6 +84,15 @@ func (m *mockMQ) Close() {
 }
 func (m *mockMQ) SetClosedHandler(cb func(error)) { m.closedH = cb }
 
+// lose simulates a lost messaging connection the way the NATS client reports it: the client is
+// already in its closed state when the closed handler runs.
+func (m *mockMQ) lose(err error) {
+	m.mu.Lock()
+	m.connected = false
+	m.mu.Unlock()
+	m.closedH(err)
+}
+
 func (m *mockMQ) SendRequest(subj string, payload []byte, cb mq.Response) {
 	m.mu.Lock()
 	defer m.mu.Unlock()
